@@ -31,7 +31,7 @@ ENGINE = 'E3'
 EXHAUSTIVE = True
 RULE = ('chains: every (chain table, index read by a caller with non-zero multiplier) under two exponent-tracking '
         'runs of power_array; inverses: every multiple of 0.01 degC in [0.01, tcritical] and [350, 590] plus end '
-        'points and their ulp neighbours, and log-spaced pressure lattices for the reverse direction; identity / '
+        'points and their ulp neighbours, and log-spaced pressure lattices for the reverse direction, both with the 48 nearest doubles and 10^-13..10^-3 relative offsets around every zero of a coefficient of the two region 4 quadratics (located from the published coefficients); identity / '
         'monotonicity / viscosity: every state of the region 1, 2 (T x log-spaced p) and region 3 (T x density) '
         'lattices, which include exactly the critical density and the critical temperature +- 1 ulp (the zeros of the '
         'reduced variables of the viscosity correlation); boundaries: lattices along 350 degC, b23, the saturation line; classifier: (T lattice + ulp '
@@ -49,8 +49,9 @@ ASSUMPTIONS = [
     'and, below the critical temperature, on the outer (stable) branches of the isotherm',
     'the value clauses are evaluated for p >= 1e-3 Pa; between 0 and 1e-3 Pa only the classification is compared '
     '(the ideal-gas terms leave double precision far below); p = 0 itself is explored as a limit',
-    'stencils of the finite-difference identities are moved inward so that they stay inside [0.01 degC, routine '
-    'limit] x (0, 100 MPa]',
+    'central stencils of the finite-difference identities are moved inward so that they stay inside [0.01 degC, routine '
+    'limit] x (0, 100 MPa]; lattice states closer than two steps to such a limit are judged a second time at the state '
+    'itself with one-sided 4th-order differences (own tolerance identity_r*_edge)',
 ]
 BOUNDS = {
     'quick': {'T_step_degC': 2, 'pressures_per_isotherm': 60, 'density_step': 10, 'sat_line_step_degC': 0.01,
